@@ -50,6 +50,8 @@ class Sem:
         """(text, kind): kind is 'atom', 'assign' (top level is an assignment or a comma-free ternary: needs parentheses as an
         operand to stay valid C) or 'other'"""
         r = self.r
+        if d > 0 and r.random() < 0.2:
+            return self.chain(), "assign"
         if d <= 0 or r.random() < 0.25:
             return r.choice(INT_ATOMS), "atom"
         k = r.randint(0, 11)
@@ -68,6 +70,35 @@ class Sem:
         if k == 10:
             return f"({r.choice(['long', 'unsigned', 'char', 'T', 'UL'])}) {self.op(d - 1, unary=True)}", "other"
         return f"{r.choice(INT_LVALUES)} {r.choice(ASSIGN)} {self.expr(d - 1)}", "assign"
+
+    def chain(self):
+        """a flat chain of 2..6 binary operators over atoms and prefix / postfix / cast operands with NO parentheses (optionally under a
+        conditional and an assignment): what it means is entirely up to C's precedence and associativity rules, i.e. up to the compiler"""
+        r = self.r
+
+        def operand():
+            k = r.randint(0, 9)
+            a = r.choice(INT_ATOMS)
+            if k == 0:
+                return r.choice(["-", "~", "!", "+"]) + " " + a
+            if k == 1:
+                return f"({r.choice(['long', 'unsigned', 'char', 'T'])}) {a}"
+            if k == 2:
+                return r.choice(INT_LVALUES) + r.choice(["++", "--"])
+            if k == 3:
+                return "sizeof " + r.choice(["a", "b", "loc", "g1", "s1", "s1.a", "larr", "garr[1]", "*ip", "t1", "msg", "1", "'a'", "sp->arr", "un"])
+            return a
+        ops = BIN + ["/", "%", ">>"]
+        e = operand()
+        for _ in range(r.randint(2, 6)):
+            o = r.choice(ops)
+            rhs = operand()
+            e += f" {o} " + (f"({rhs} | 1)" if o in ("/", "%") else rhs)
+        if r.random() < 0.3:
+            e = f"{e} ? {self.chain() if r.random() < 0.3 else operand()} : {operand()} {r.choice(ops[:13])} {operand()}"
+        if r.random() < 0.3:
+            e = f"{r.choice(INT_LVALUES)} {r.choice(ASSIGN)} {r.choice(INT_LVALUES)} {r.choice(ASSIGN)} {e}"
+        return e
 
     def op(self, d, unary=False):
         """an operand.  Atoms stay bare; assignments and conditionals are parenthesised (they are not valid operands otherwise);
